@@ -17,7 +17,7 @@ LEVEL = "exploration"
 META = {
     "engine": "trace-monitor",
     "technique": "runtime monitor: online protocol automaton over recorded request/response traces of random sessions driven through the real run() loop with injected handler faults, plus a strict byte-level reader on a real subprocess",
-    "text": "Random sessions (known, unknown and parameter-malformed methods, sync events, repeated/missing initialize, requests after shutdown, int and string ids) are fed through the real LangServer.run loop while exceptions are injected at named internals; a monitor automaton checks every trace: one response per request with its id before the next input is consumed, silence on notifications, -32601 for unknown methods, -32603 for handler failures, strict-JSON payloads, loop alive until exit and a final probe answered. A subset of sessions runs against a real subprocess over pipes with our own framer. Sessions are sampled.",
+    "text": "Random sessions (known, unknown and parameter-malformed methods, sync events, repeated/missing initialize, requests after shutdown, int and string ids) are fed through the real LangServer.run loop while exceptions are injected at named internals; a monitor automaton checks every trace: one response per request with its id before the next input is consumed, silence on notifications, -32601 for unknown methods, -32603 for handler failures, strict-JSON payloads, loop alive until exit and a final probe answered. A subset of sessions runs against a real subprocess over pipes with our own framer. Sessions are sampled. Half of the in-process sessions write through the server's own JSONRPC2Connection into a byte buffer read back by a strict reader; injected exceptions include empty, multi-line, non-ASCII and very long messages.",
     "note": "trusted: the monitor automaton and our LSP framer; well-formed JSON-RPC only (method present, non-negative/str ids, no batches); injected faults are Exception subclasses raised inside handlers",
 }
 RULE = ("sessions of 5-60 messages over a 2-4 file workspace (some files broken): every handled method with well-formed and malformed params, unknown "
